@@ -12,7 +12,7 @@ KEYS = ["A", "B", "KEY", "NAME", "STATUS", "my_key", "K1", "X_Y", "TYPE", "PATTE
 WORDS = ["x", "abc", "Hello", "DONE", "v1", "a_b", "A.B", "a-b", "path/to", "ok"]
 SPECIAL_STR = ["", " ", "two words", "three word value", "1", "42", "-7", "3.14", "1e5", "true", "false", "null", "vs",
                "a:b", "a::b", "x,y", "[x]", "a]b", "//c", "a // b", "#tag", "§ref", "§1", "$VAR", "$1:name", "$KEY::value", "$HOME:", "$a:", "$:", "$x:y:", "$",
-               "A→B", "A→B→C", "P⊕Q", "L@R", "X⇌Y", "A∧B", "A∨B", "A⧺B",
+               "A→B", "A→B→C", "P⊕Q", "L@R", "X⇌Y", "A⇌B⇌C", "X⇌Y⇌Z⇌W", "A∧B", "A∨B", "A⧺B",
                "NAME<q>", "NEVER<A,B>", "FOO<>", "ATHENA<wise_one>", "a\"b", "back\\slash", "nl\nline", "first line  \nsecond", "a \n b\n\nc ", "tab\tx",
                "\\n", "\\t", "trés", "é", "\U0001F600", "1.2.3", "1.0-beta", "2024-01-15", "100%", "60%_done",
                "===END===", "---", "```", "a=b", "(paren)", "semi;colon", "q?", "x!", "UPPER lower", "a  b", " lead",
